@@ -203,6 +203,12 @@ pub fn generate(seed: u64, n: usize, _thorough: bool, _corpus: Option<&str>) -> 
             }
         }
     }
+    // named SINGLETON rows that bind, built through add_named_constraint (own stream, fixed block)
+    let mut r6 = Rng::new(seed ^ 0x51e6);
+    for k in 0..40 {
+        let (intended, built) = gen_lp::singleton_bound_rows(&mut r6);
+        push_case_kind(if k % 2 == 0 { SolverKind::Clarabel } else { SolverKind::BuilderClarabel }, &intended, &built, "singleton-named-rows", false, variants, &mut cases);
+    }
     child::shutdown();
     cases
 }
